@@ -137,8 +137,7 @@ def swap_multiples(rep, index, m):
             rep.ob("C10.S3 mutation-is-a-swap", "swap_multiples store at line %d" % node.lineno, True,
                    "part of a two-index swap (length and multiset preserved)", loc=index.loc(m, node))
         # any other store form is left to the run clause (symbolic store, slice copies), which fails closed
-    rep.floor("swap_multiples mutation sites", 1)
-    c10_runs.run_clause(rep, index, m)
+    c10_runs.run_clause(rep, index, m)  # (stores made in helpers are seen there; it has its own vacuity guard)
 
 
 def _allocated_with_len(fn, call, data_p):
